@@ -431,7 +431,7 @@ func (s *c17MgrSM) age(rt *rapid.T) {
 	s.hp[h].aged = true
 	rp := s.env.mgr.getPool(s.hashes[h].String())
 	if rp == nil {
-		rt.Fatalf("C17/mgr-pool-exists: the manager has no pool for h%d although a peer announced it (height %d, storeFrom %d) and no GC tick removed it\nhistory:\n%s",
+		rt.Fatalf("C17/peer-lost: the manager has no pool for h%d although a peer announced it (height %d, storeFrom %d) and no GC tick removed it\nhistory:\n%s",
 			h, s.heights[h], s.storeFrom, s.history())
 	}
 	rp.createdAt = time.Now().Add(-2 * c17PoolValidationTimeout)
@@ -516,16 +516,19 @@ func (s *c17MgrSM) doneOp(rt *rapid.T) {
 			}
 			st, ok := c17Status(s.env.mgr.nodes, g.id)
 			rg = ok && st == cooldown
-			switch {
-			case hpActive && rh && !(genActive && rg):
+			applied := 0
+			if hpActive && rh {
 				hpm.cooldown(g.id, now)
-			case genActive && rg && !(hpActive && rh):
+				applied++
+			}
+			if genActive && rg {
 				s.gen.cooldown(g.id, now)
-			case !hpActive && !genActive:
-			default:
-				rt.Fatalf("C17/mgr-cooldown: peer %s (grant #%d) was active in the pool of h%d (%v) and in the general pool (%v); after done(cool-down) "+
-					"on cool-down in hash pool: %v, in general pool: %v — expected exactly one\nhistory:\n%s",
-					string(g.id), g.n, g.h, hpActive, genActive, rh, rg, s.history())
+				applied++
+			}
+			if hpActive && genActive && applied != 1 {
+				rt.Fatalf("C17/mgr-cooldown: peer %s (grant #%d) was active in the pool of h%d and in the general pool; after done(cool-down) "+
+					"it is on cool-down in the hash pool: %v, in the general pool: %v — expected exactly one\nhistory:\n%s",
+					string(g.id), g.n, g.h, rh, rg, s.history())
 			}
 			return
 		case g.srcGen:
@@ -665,13 +668,14 @@ func (s *c17MgrSM) peerBlocked(rt *rapid.T, h int) {
 		s.mValidatedPool(hh)
 		calls = append(calls, s.startPeer(hh))
 	}
+	all := append([]*c17Call(nil), calls...)
 	defer func() {
-		for _, c := range calls {
+		for _, c := range all {
 			c.cancel()
 		}
 	}()
 	settle := func(stage string) {
-		keep := calls[:0]
+		var keep []*c17Call
 		for _, c := range calls {
 			av := s.avail(c.h)
 			if len(av) == 0 {
@@ -874,6 +878,7 @@ func TestVerifC17_ManagerModel(t *testing.T) {
 			}
 			for _, fn := range []string{"peers.(*pool).next.func1", "peers.(*Manager).Peer"} {
 				if n := c17WaitNoGoroutine(fn); n > 0 && !rt.Failed() {
+					rt.Logf("leaked goroutines:\n%s", c17LastLeak)
 					rt.Fatalf("C17/cancellation-honoured: %d goroutine(s) in %s still alive %s after every request context was cancelled\nhistory:\n%s",
 						n, fn, c17HangBound, s.history())
 				}
